@@ -30,6 +30,38 @@ def shoelace(vs):
     return abs(a) / 2
 
 
+def clip(subject, clipper):
+    """Sutherland-Hodgman: intersection of convex polygon `subject` with convex counter-clockwise polygon `clipper`"""
+    out = list(subject)
+    n = len(clipper)
+    for i in range(n):
+        if not out:
+            break
+        ax, ay = clipper[i]
+        bx, by = clipper[(i + 1) % n]
+        inp, out = out, []
+        for j in range(len(inp)):
+            px, py = inp[j]
+            qx, qy = inp[(j + 1) % len(inp)]
+            sp_ = (bx - ax) * (py - ay) - (by - ay) * (px - ax)
+            sq_ = (bx - ax) * (qy - ay) - (by - ay) * (qx - ax)
+            if sp_ >= 0:
+                out.append((px, py))
+            if (sp_ >= 0) != (sq_ >= 0):
+                t = sp_ / (sp_ - sq_)
+                out.append((px + t * (qx - px), py + t * (qy - py)))
+    return out
+
+
+def ccw(vs):
+    a = 0.0
+    for i in range(len(vs)):
+        x1, y1 = vs[i]
+        x2, y2 = vs[(i + 1) % len(vs)]
+        a += x1 * y2 - x2 * y1
+    return list(vs) if a >= 0 else list(reversed(vs))
+
+
 _TRI_AREA = None
 
 
@@ -100,7 +132,19 @@ def check_index(acc, lib, S, h, o, keys=None, prefix=True, area_sum=None):
             if h - j < 1:
                 break
             try:
-                _, _, pc = centre_of(lib, S >> (2 * j), h - j, o)
+                _, pvs, pc = centre_of(lib, S >> (2 * j), h - j, o)
+                if j == 1:
+                    # descent, sharply: a cell overlaps the cell named by its index without the last digit
+                    ox, oy = vs[0]
+                    sc2 = 2.0 ** h          # work in units of the child cell, relative to one of its corners (no cancellation)
+                    child = ccw([((x - ox) * sc2, (y - oy) * sc2) for x, y in vs])
+                    par = ccw([((x - ox) * sc2, (y - oy) * sc2) for x, y in pvs])
+                    inter = clip(child, par)
+                    frac = shoelace(inter) / shoelace(child) if len(inter) >= 3 else 0.0
+                    acc.maximum('neg_min_overlap_with_prefix_cell', -round(frac, 4), [o, h, S])
+                    if frac < 0.01:
+                        acc.violation(k + ':descent', f'the cell of index {S} (level {h}, {o}) does not overlap the cell of its prefix {S >> 2} (shared area {frac:.4f} of the child)', case)
+                        return
             except Exception as e:
                 acc.violation(k + f':prefix-raises:j={j}', f'raised {e!r}', case)
                 return
